@@ -23,7 +23,7 @@ Definition adel {A} (k : Z) (m : list (Z * A)) : list (Z * A) :=
 Definition aset {A} (k : Z) (v : A) (m : list (Z * A)) : list (Z * A) := adel k m ++ [(k, v)].
 Definition ahas {A} (k : Z) (m : list (Z * A)) : bool := match aget k m with Some _ => true | None => false end.
 Definition zmem (x : Z) (l : list Z) : bool := existsb (Z.eqb x) l.
-Definition zlen {A} (l : list A) : Z := Z.of_nat (length l).
+Definition zlen {A} (l : list A) : Z := Z.of_nat (List.length l).
 Definition is_some {A} (o : option A) : bool := match o with Some _ => true | None => false end.
 
 Fixpoint zinsert (x : Z) (l : list Z) : list Z :=
@@ -309,6 +309,10 @@ Definition count_from_ballots (s : suffrage) (r : rec) : rec :=
                    (r_ballots r) in
   set_ballots [] (set_voted (fold_left (fun m kv => aset (sf_node (snd kv)) (snd kv) m) ok (r_voted r)) r).
 
+(* isExpelsOfBallotFact *)
+Definition expels_of_fact (m : fact) (ex : list expel) : bool :=
+  match f_ex m with [] => true | fx => zlist_eqb fx (map e_id ex) end.
+
 (* extractExpelsFromBallot + one iteration of the loop of countWithExpels (after the fix: the validator's rule).
    [n] is the node whose ballot carries the expels.  Result: (sign facts, majority, expels) *)
 Definition expel_candidate (local : Z) (s : suffrage) (th10 : Z) (r : rec) (n : Z)
@@ -329,7 +333,12 @@ Definition expel_candidate (local : Z) (s : suffrage) (th10 : Z) (r : rec) (n : 
                 else match tally q (thr 1000 q) (sf_ids wsfs) with
                      | RNotYet => None
                      | RDraw => Some (wsfs, None, ex)
-                     | RMaj id => Some (wsfs, find_fact id wsfs, ex)
+                     | RMaj id =>
+                         (* isExpelsOfBallotFact: the majority must have been voted with these expels *)
+                         match find_fact id wsfs with
+                         | Some m => if expels_of_fact m ex then Some (wsfs, Some m, ex) else None
+                         | None => None
+                         end
                      end
             end
       end
@@ -576,3 +585,148 @@ Fixpoint run (pf : prefixes) (e : env) (b : box) (ops : list op) : box * list ou
   | o :: r => let '(b1, x) := step pf e b o in
               let '(b2, xs) := run pf e b1 r in (b2, x :: xs)
   end.
+
+(* ------------------------------------------------------------------ correspondence cases (decoding + comparison) *)
+From MV Require Import Common.Cases.
+
+Definition csf := (Z * Z * nat)%type.       (* node, publickey, index of the fact *)
+Record cvp := mkCVP { c_sp : spoint; c_th : Z; c_maj : option nat; c_sfs : list csf; c_ex : list nat; c_kind : vkind }.
+Record tabs := mkTabs { t_facts : list fact; t_expels : list expel; t_vps : list cvp }.
+
+Definition fact0 : fact := mkFact 0 (mkSP 0 0 INIT) KInit [].
+Definition expel0 : expel := mkExpel 0 0 0 0 [].
+Definition dfact (t : tabs) (i : nat) : fact := nth i (t_facts t) fact0.
+Definition dexpel (t : tabs) (i : nat) : expel := nth i (t_expels t) expel0.
+Definition dsf (t : tabs) (c : csf) : signfact := let '(n, p, i) := c in mkSF n p (dfact t i).
+Definition dvp (t : tabs) (i : nat) : vproof :=
+  match nth_error (t_vps t) i with
+  | Some c => mkVP (Z.of_nat (S i)) (c_sp c) (c_th c) (option_map (dfact t) (c_maj c)) (map (dsf t) (c_sfs c))
+                   (map (dexpel t) (c_ex c)) (c_kind c)
+  | None => mkVP (-1) (mkSP 0 0 INIT) 0 None [] [] VPlain
+  end.
+
+Inductive cop :=
+| CVote (sf : csf) (vp : option nat) (ex : list nat) (full : bool) (get : option nat)
+| CCount (i : nat) (el : bool) (pv px : option Z)
+| CHeld (i : nat) (el : bool) (pv px : option Z)
+| CForward (i : nat) (vp : nat)
+| CSetLast (l : lastpoint)
+| CClean
+| CLearn (h : Z).
+
+Definition dop (t : tabs) (c : cop) : op :=
+  match c with
+  | CVote sf vp ex full get => OVote (mkBallot (dsf t sf) (option_map (dvp t) vp) (map (dexpel t) ex) full) get
+  | CCount i el pv px => OCount i el pv px
+  | CHeld i el pv px => OHeld i el pv px
+  | CForward i vp => OForward i (dvp t vp)
+  | CSetLast l => OSetLast l
+  | CClean => OClean
+  | CLearn h => OLearn h
+  end.
+
+(* observation of an emitted voteproof: embedded ones by tag only *)
+Record vobs := mkVO { vo_tag : Z; vo_sp : spoint; vo_th : Z; vo_maj : option Z; vo_sfs : list (Z * Z);
+                      vo_ex : list Z; vo_kind : vkind }.
+Fixpoint pinsert (x : Z * Z) (l : list (Z * Z)) : list (Z * Z) :=
+  match l with [] => [x] | y :: r => if fst x <=? fst y then x :: l else y :: pinsert x r end.
+Definition psort (l : list (Z * Z)) : list (Z * Z) := fold_right pinsert [] l.
+Definition vobs_of (v : vproof) : vobs :=
+  if v_tag v =? 0
+  then mkVO 0 (v_sp v) (v_th v) (option_map f_id (v_maj v))
+            (psort (map (fun sf => (sf_node sf, f_id (sf_fact sf))) (v_sfs v))) (map e_id (v_ex v)) (v_kind v)
+  else mkVO (v_tag v) (mkSP 0 0 INIT) 0 None [] [] VPlain.
+
+Definition pair_eqb (a b : Z * Z) : bool := (fst a =? fst b) && (snd a =? snd b).
+Definition vobs_eqb (a b : vobs) : bool :=
+  (vo_tag a =? vo_tag b) && sp_eqb (vo_sp a) (vo_sp b) && (vo_th a =? vo_th b) &&
+  option_eqb Z.eqb (vo_maj a) (vo_maj b) && list_eqb pair_eqb (vo_sfs a) (vo_sfs b) &&
+  zlist_eqb (vo_ex a) (vo_ex b) && vkind_eqb (vo_kind a) (vo_kind b).
+Definition lp_eqb (a b : lastpoint) : bool :=
+  sp_eqb (lp_sp a) (lp_sp b) && Bool.eqb (lp_maj a) (lp_maj b) && Bool.eqb (lp_sc a) (lp_sc b).
+
+(* observation of one live record *)
+Record lobs := mkLO { lo_pfx : string; lo_key : spoint; lo_id : nat; lo_sp : option spoint; lo_isc : bool;
+                      lo_nv : Z; lo_nb : Z; lo_nvp : Z; lo_nex : Z; lo_fin : bool; lo_hold : bool }.
+Definition lobs_eqb (a b : lobs) : bool :=
+  String.eqb (lo_pfx a) (lo_pfx b) && sp_eqb (lo_key a) (lo_key b) && Nat.eqb (lo_id a) (lo_id b) &&
+  option_eqb sp_eqb (lo_sp a) (lo_sp b) && Bool.eqb (lo_isc a) (lo_isc b) &&
+  (lo_nv a =? lo_nv b) && (lo_nb a =? lo_nb b) && (lo_nvp a =? lo_nvp b) && (lo_nex a =? lo_nex b) &&
+  Bool.eqb (lo_fin a) (lo_fin b) && Bool.eqb (lo_hold a) (lo_hold b).
+Definition lobs_of (b : box) (kv : key * nat) : lobs :=
+  let r := rget (snd kv) (bx_recs b) in
+  mkLO (fst (fst kv)) (snd (fst kv)) (snd kv) (r_sp r) (r_isc r) (zlen (r_voted r)) (zlen (r_ballots r))
+       (zlen (r_vps r)) (zlen (r_ex r)) (is_some (r_vp r)) (r_hold r).
+
+Fixpoint ninsert (x : nat) (l : list nat) : list nat :=
+  match l with [] => [x] | y :: r => if Nat.leb x y then (if Nat.eqb x y then l else x :: l) else y :: ninsert x r end.
+Definition nset (l : list nat) : list nat := fold_right ninsert [] l.
+
+(* deferred: (0,_,_) none; (1, record, _) count; (2, record, tag) forward *)
+Definition def_obs (d : deferred) : Z * nat * Z :=
+  match d with DNone => (0, 0%nat, 0) | DCount i => (1, i, 0) | DForward i v => (2, i, v_tag v) end.
+Definition def_eqb (a b : Z * nat * Z) : bool :=
+  let '(k1, i1, t1) := a in let '(k2, i2, t2) := b in (k1 =? k2) && Nat.eqb i1 i2 && (t1 =? t2).
+
+Record sobs := mkSO { so_voted : bool; so_def : bool; so_vps : list vobs; so_last : option lastpoint;
+                      so_live : list lobs; so_removed : list nat; so_pool : list nat;
+                      so_votedq : list (spoint * list Z) }.
+
+Definition cmp4 (b : box) (o : out) (ob : sobs) : bool :=
+  Bool.eqb (o_voted o) (so_voted ob) &&
+  Bool.eqb (match o_def o with DNone => false | _ => true end) (so_def ob) &&
+  list_eqb vobs_eqb (map vobs_of (o_vps o)) (so_vps ob) && option_eqb lp_eqb (bx_last b) (so_last ob).
+
+Definition cmp5 (pf : prefixes) (b : box) (ob : sobs) : bool :=
+  option_eqb lp_eqb (bx_last b) (so_last ob) &&
+  Nat.eqb (List.length (bx_vrs b)) (List.length (so_live ob)) &&
+  forallb (fun l => existsb (lobs_eqb l) (map (lobs_of b) (bx_vrs b))) (so_live ob) &&
+  list_eqb Nat.eqb (nset (bx_removed b)) (nset (so_removed ob)) &&
+  list_eqb Nat.eqb (nset (bx_pool b)) (nset (so_pool ob)) &&
+  forallb (fun q => zlist_eqb (box_voted pf (fst q) b) (snd q)) (so_votedq ob).
+
+Fixpoint check_steps (mode5 : bool) (pf : prefixes) (e : env) (t : tabs) (b : box) (steps : list (cop * sobs)) : bool :=
+  match steps with
+  | [] => true
+  | (c, ob) :: r =>
+      let '(b', o) := step pf e b (dop t c) in
+      (if mode5 then cmp5 pf b' ob else cmp4 b' o ob) && check_steps mode5 pf e t b' r
+  end.
+
+(* index of the first step at which model and implementation differ (for debugging) *)
+Fixpoint first_bad (mode5 : bool) (pf : prefixes) (e : env) (t : tabs) (b : box) (steps : list (cop * sobs)) (i : nat) : option nat :=
+  match steps with
+  | [] => None
+  | (c, ob) :: r =>
+      let '(b', o) := step pf e b (dop t c) in
+      if (if mode5 then cmp5 pf b' ob else cmp4 b' o ob) then first_bad mode5 pf e t b' r (S i) else Some i
+  end.
+
+(* a validator case: the voteproof of the table, a suffrage, and what the real code said:
+   Voteproof.IsValid(networkID) == nil, isaac.IsValidVoteproofWithSuffrage == nil *)
+Inductive case :=
+| CaseHist (e : env) (t : tabs) (steps : list (cop * sobs))
+| CaseValid (t : tabs) (vp : nat) (s : suffrage) (wf valid : bool).
+
+(* the key prefix among the string literals of a function: the literal ending in "-" *)
+Fixpoint last_char (s : string) : option Ascii.ascii :=
+  match s with EmptyString => None | String c EmptyString => Some c | String _ r => last_char r end.
+Definition prefix_of (l : list string) : string :=
+  match find (fun s => match last_char s with Some c => Ascii.eqb c (Ascii.ascii_of_nat 45) | None => false end) l with
+  | Some s => s
+  | None => "?"%string
+  end.
+
+Definition check_case (mode5 : bool) (pf : prefixes) (c : case) : bool :=
+  match c with
+  | CaseHist e t steps => check_steps mode5 pf e t box_init steps
+  | CaseValid t i s wf valid =>
+      Bool.eqb (vp_wellformed (dvp t i)) wf && Bool.eqb (vp_valid_suf (dvp t i) s) valid
+  end.
+
+(* the prefixes and constants of the current Go source (regenerated by the translator) *)
+From MV Require Gen.C04.
+Definition pfx_of (g n c : list string) : prefixes := mkPfx (prefix_of g) (prefix_of n) (prefix_of c).
+Definition pfx : prefixes := pfx_of Gen.C04.bb_get_strings Gen.C04.bb_new_strings Gen.C04.bb_clean_strings.
+(* C04: outputs of every step (Vote result, deferred, emitted voteproofs, last point) + validator cases *)
+Definition check (c : case) : bool := check_case false pfx c.
